@@ -132,10 +132,9 @@ Definition prim_value (p : PrimKind) (v : Value) : Outcome Z :=
     | VChar c => if in_int k c then Ok c else Err
     | _ => Err
     end
-  (* FloatBuilder: the same width is stored bit for bit; integers and chars are cast to the nearest float (FloatOfInt.v);
-     the other float width is cast too: not modelled *)
-  | PF32 => match v with VF32 x => if in_int U32 x then Ok x else Err | VInt _ z | VChar z => if in_int U32 (f32_of_int z) then Ok (f32_of_int z) else Err | _ => Err end
-  | PF64 => match v with VF64 x => if in_int U64 x then Ok x else Err | VInt _ z | VChar z => if in_int U64 (f64_of_int z) then Ok (f64_of_int z) else Err | _ => Err end
+  (* FloatBuilder: the same width is stored bit for bit; integers, chars and the other float width are cast to the nearest float (FloatOfInt.v) *)
+  | PF32 => match v with VF32 x => if in_int U32 x then Ok x else Err | VF64 x => if in_int U32 (f32_of_f64 x) then Ok (f32_of_f64 x) else Err | VInt _ z | VChar z => if in_int U32 (f32_of_int z) then Ok (f32_of_int z) else Err | _ => Err end
+  | PF64 => match v with VF64 x => if in_int U64 x then Ok x else Err | VF32 x => if in_int U64 (f64_of_f32 x) then Ok (f64_of_f32 x) else Err | VInt _ z | VChar z => if in_int U64 (f64_of_int z) then Ok (f64_of_int z) else Err | _ => Err end
   (* DateBuilder / TimeBuilder: serialize_i32 / serialize_i64 through try_from *)
   | PDate32 | PTime32 _ => match v with VInt (I32 | I64) z => if in_int I32 z then Ok z else Err | _ => Err end
   | PDate64 | PTime64 _ => match v with VInt (I32 | I64) z => if in_int I64 z then Ok z else Err | _ => Err end
